@@ -373,6 +373,7 @@ func (g *gen) fill(gm *gMsg, ts bool) {
 		m.ExtRanges = append(m.ExtRanges, ARange{4, math.MaxInt32})
 		if g.chance(0.5) {
 			m.ExtRanges = []ARange{{4, 536870912}, {536870912, math.MaxInt32}}
+			m.ExtRangeOpts = []int32{int32(g.pick(5)), int32(g.pick(3))}
 		}
 		return
 	}
@@ -380,16 +381,25 @@ func (g *gen) fill(gm *gMsg, ts bool) {
 	// extension ranges / reserved first so that field numbers avoid them
 	lo, hi := int32(1), int32(536870911)
 	var blocked []ARange
-	if !proto3 && g.chance(0.35) {
-		m.ExtRanges = append(m.ExtRanges, ARange{200, 300})
-		blocked = append(blocked, ARange{200, 300})
+	if !proto3 && g.chance(0.4) {
+		// 1..5 extension ranges in random declaration order, each with its own (or no) ExtensionRangeOptions
+		pool := []ARange{{200, 300}, {400, 401}, {500, 600}, {700, 800}, {100000, 536870912}}
+		g.r.Shuffle(len(pool), func(i, j int) { pool[i], pool[j] = pool[j], pool[i] })
+		k := 1 + g.pick(len(pool))
 		if g.chance(0.4) {
-			m.ExtRanges = append(m.ExtRanges, ARange{100000, 536870912})
-			blocked = append(blocked, ARange{100000, 536870912})
+			k = 1 + g.pick(2)
 		}
-		if g.chance(0.3) { // declared out of order
-			m.ExtRanges = append([]ARange{{400, 401}}, m.ExtRanges...)
-			blocked = append(blocked, ARange{400, 401})
+		for _, xr := range pool[:k] {
+			m.ExtRanges = append(m.ExtRanges, xr)
+			blocked = append(blocked, xr)
+			v := int32(0)
+			if g.chance(0.5) {
+				v = int32(1 + g.pick(5))
+				if v == 5 && !g.ed {
+					v = 2
+				}
+			}
+			m.ExtRangeOpts = append(m.ExtRangeOpts, v)
 		}
 	}
 	if g.chance(0.3) {
@@ -456,6 +466,9 @@ func (g *gen) fill(gm *gMsg, ts bool) {
 		o := &AOneof{Name: fmt.Sprintf("o_%d", g.next())}
 		if g.o.AnyTarget {
 			o.Feat = g.featFor("oneof")
+		}
+		if o.Feat == nil && g.chance(0.3) {
+			o.Opts = int32(1 + g.pick(2))
 		}
 		oi := int32(len(m.Oneofs))
 		m.Oneofs = append(m.Oneofs, o)
